@@ -9,7 +9,121 @@
 #include <utility>
 #include <vector>
 
+#ifdef LIBCUCKOO_VERIF
+#include <atomic>
+#include <cstddef>
+#endif
+
 namespace libcuckoo {
+
+#ifdef LIBCUCKOO_VERIF
+// Verification hooks (see /verif/DESIGN.md section 4.3). They are compiled only
+// with -DLIBCUCKOO_VERIF; without a handler installed they do nothing.
+namespace verif {
+enum event_kind {
+  EV_LOCK_REQ = 0,       // about to attempt to take a spinlock (addr = flag)
+  EV_LOCK_SPIN = 1,      // the attempt failed
+  EV_LOCK_ACQ = 2,       // the attempt succeeded
+  EV_UNLOCK = 4,         // about to release a spinlock
+  EV_HP_LOAD = 5,        // about to load a bucket container's hashpower (value = current)
+  EV_HP_STORE = 6,       // about to store a hashpower (value = new)
+  EV_RC_LOAD = 7,        // about to load the resize counter (value = current)
+  EV_RC_BUMP = 8,        // about to increment the resize counter
+  EV_LAZY_LOAD = 9,      // lazy-rehash counter: load / store / decrement
+  EV_LAZY_STORE = 10,
+  EV_LAZY_DEC = 11,
+  EV_LOCKS_CURRENT = 12, // about to read all_locks_.back()
+  EV_LOCKS_APPEND = 13,  // about to append a lock array
+  EV_LOCKALL_BEGIN = 14, // lock_all(normal_mode) entered / all locks taken
+  EV_LOCKALL_END = 15,
+  EV_BUCKET_ACCESS = 16, // bucket `value` of the container at addr is about to be accessed
+  EV_LOCK_META = 17,     // counter / migrated flag of stripe `value` is about to be accessed
+  EV_BUCKETS_REPLACE = 18, // the bucket array of the table is about to be exchanged
+  EV_FUNCTOR = 19,       // a user functor is about to run on bucket `value`
+};
+using handler_t = void (*)(int kind, const void *addr, std::size_t value);
+inline std::atomic<handler_t> &handler() {
+  static std::atomic<handler_t> h{nullptr};
+  return h;
+}
+inline void event(int kind, const void *addr, std::size_t value) {
+  handler_t h = handler().load(std::memory_order_relaxed);
+  if (h != nullptr) {
+    h(kind, addr, value);
+  }
+}
+
+// std::atomic_flag that reports every acquisition attempt and release
+class atomic_flag_ev {
+public:
+  atomic_flag_ev() noexcept {}
+  bool test_and_set(std::memory_order order) noexcept {
+    event(EV_LOCK_REQ, this, 0);
+    const bool was_set = flag_.test_and_set(order);
+    event(was_set ? EV_LOCK_SPIN : EV_LOCK_ACQ, this, 0);
+    return was_set;
+  }
+  void clear() noexcept { flag_.clear(); } // initialisation, not a release
+  void clear(std::memory_order order) noexcept {
+    event(EV_UNLOCK, this, 0);
+    flag_.clear(order);
+  }
+
+private:
+  std::atomic_flag flag_;
+};
+
+// Wraps an atomic class (std::atomic or the table's CopyableAtomic) and
+// reports loads, stores and read-modify-writes
+template <typename Base, typename T, int LOAD_EV, int STORE_EV, int RMW_EV>
+class atomic_ev : public Base {
+public:
+  using Base::Base;
+  atomic_ev() = default;
+  atomic_ev(T v) noexcept : Base(v) {}
+  T load(std::memory_order order) const noexcept {
+    event(LOAD_EV, this, static_cast<std::size_t>(Base::load(std::memory_order_relaxed)));
+    return Base::load(order);
+  }
+  void store(T v, std::memory_order order) noexcept {
+    event(STORE_EV, this, static_cast<std::size_t>(v));
+    Base::store(v, order);
+  }
+  T fetch_add(T v, std::memory_order order) noexcept {
+    event(RMW_EV, this, static_cast<std::size_t>(v));
+    return Base::fetch_add(v, order);
+  }
+  T fetch_sub(T v, std::memory_order order) noexcept {
+    event(RMW_EV, this, static_cast<std::size_t>(v));
+    return Base::fetch_sub(v, order);
+  }
+};
+
+// The list of lock arrays, reporting reads of the current (last) array and
+// appends
+template <typename List> class list_ev : public List {
+public:
+  using List::List;
+  list_ev() = default;
+  list_ev(const list_ev &) = default;
+  list_ev(list_ev &&) = default;
+  list_ev &operator=(const list_ev &) = default;
+  list_ev &operator=(list_ev &&) = default;
+  typename List::reference back() {
+    event(EV_LOCKS_CURRENT, this, 0);
+    return List::back();
+  }
+  template <typename... Args> void emplace_back(Args &&...args) {
+    event(EV_LOCKS_APPEND, this, 0);
+    List::emplace_back(std::forward<Args>(args)...);
+  }
+};
+} // namespace verif
+#define LIBCUCKOO_VERIF_EVENT(kind, addr, value)                               \
+  ::libcuckoo::verif::event(::libcuckoo::verif::kind, (addr), (value))
+#else
+#define LIBCUCKOO_VERIF_EVENT(kind, addr, value)
+#endif
 
 #if LIBCUCKOO_DEBUG
 //! When \ref LIBCUCKOO_DEBUG is 0, LIBCUCKOO_DBG will printing out status
